@@ -75,6 +75,11 @@ def compared_fields(fn: ast.FunctionDef) -> Dict[str, List[ast.AST]]:
                 sx, sy = side(x), side(y)
                 if sx and sy and sx[0] != sy[0] and sx[1] == sy[1] and isinstance(op, (ast.Eq, ast.NotEq, ast.Is, ast.IsNot)):
                     out.setdefault(sx[1], []).append(n)
+        if isinstance(n, ast.Call) and isinstance(n.func, ast.Name) and n.func.id not in ("isinstance", "tuple", "list") and len(n.args) >= 2:
+            # comparison delegated to a helper: helper(a.F, b.F)
+            sx, sy = side(n.args[0]), side(n.args[1])
+            if sx and sy and sx[0] != sy[0] and sx[1] == sy[1]:
+                out.setdefault("helper:" + sx[1], []).append(n)
         if isinstance(n, ast.Call) and isinstance(n.func, ast.Name) and n.func.id == "isinstance" and len(n.args) == 2:
             x, y = n.args
             if isinstance(y, ast.Call) and isinstance(y.func, ast.Name) and y.func.id == "type":
@@ -102,6 +107,28 @@ def rule_cmp_fields(ctx: Ctx) -> None:
         for f in need:
             if f in got:
                 ctx.ok("cmp.fields", m, got[f][0], what=f"{q}: compares {f}")
+            elif "helper:" + f in got:
+                call = got["helper:" + f][0]
+                h = repo.try_anchor(CMP, call.func.id)
+                if not isinstance(h, ast.FunctionDef):
+                    raise AnalysisError(f"{q}: helper `{call.func.id}` comparing `{f}` not found in the module")
+                hp = func_params(h)[:2]
+                approx = [x for x in ast.walk(h) if (isinstance(x, ast.BinOp) and isinstance(x.op, ast.Mod))
+                          or (isinstance(x, ast.Call) and (call_attr(x) or call_name(x) or "").split(".")[-1] in ("isclose", "allclose", "mod", "remainder", "fmod", "round", "around", "rint"))
+                          or (isinstance(x, ast.Compare) and any(isinstance(o, (ast.Lt, ast.LtE, ast.Gt, ast.GtE)) for o in x.ops)
+                              and not any(isinstance(y, ast.Call) and call_name(y) == "len" for y in ast.walk(x)))]
+                exact = [x for x in ast.walk(h) if (isinstance(x, ast.Compare) and len(x.ops) == 1 and isinstance(x.ops[0], (ast.Eq, ast.NotEq))
+                                                    and {hp[0], hp[1]} <= {y.id for y in ast.walk(x) if isinstance(y, ast.Name)})
+                         or (isinstance(x, ast.Call) and (call_attr(x) or "") in ("array_equal",))]
+                if approx:
+                    ctx.fail("cmp.fields", m, call,
+                             f"{q} compares `{f}` through {call.func.id}(), which matches them only approximately (`{short(approx[0], 50)}`): gates whose "
+                             f"parameters differ (by a full turn, say — U(theta + 2 pi) = -U(theta), a relative phase once the gate is controlled) are "
+                             f"treated as the same gate", func=q, construct=f"{q}: field {f} compared approximately / modulo")
+                elif exact:
+                    ctx.ok("cmp.fields", m, call, what=f"{q}: compares {f} exactly through {call.func.id}()")
+                else:
+                    raise AnalysisError(f"{q}: helper `{call.func.id}` comparing `{f}` not classified")
             elif f == "type" and "isinstance" in got:
                 ctx.fail("cmp.fields", m, got["isinstance"][0],
                          f"{q} compares operation types with `{short(got['isinstance'][0])}`, which is asymmetric: for a subclass pair "
